@@ -70,7 +70,7 @@ var WrapKinds = []string{
 	"telemetry", "domain", "issuelink", "tags", "assertion", "mark", "secondary", "combine", "wrapferr", "wrapfgosyntax",
 	"handled", "handledmsg", "handledmsgf", "handledmsgf0", "handledsafemsg", "handleddomain", "handleddomainmsg", "domhandled", "handleassert", "assertwrap", "assertwraperr",
 	"newfw", "newfwsuffix", "httpcode", "grpccode",
-	"goerrorf", "goerrorfsuffix", "ospath", "oslink", "ossyscall", "netop", "dnswrap",
+	"goerrorf", "goerrorfsuffix", "goerrorfecho", "pkgmsgecho", "wrapecho", "ospath", "oslink", "ossyscall", "netop", "dnswrap",
 	"pkgmsg", "pkgstack", "pkgwrap",
 	"uwrapnofmt", "uwrapcause", "uwraptransparent", "uwrapsuffix", "uwrapoverride",
 	"uwrapformatter", "uwrapsafefmt", "uopt", "uwrapfmtold", "rwrapfull", "uwrapasself", "newfwerr", "ukeymarker",
@@ -210,7 +210,11 @@ func (g *Cfg) LeafOf(t *rapid.T, k string) *Spec {
 	case "newf0", "assertf0":
 		// a printf-style constructor called with a format only (no arguments)
 		s.S = []string{str(t, "lit")}
-	case "new", "domnew", "goerr", "pkgnew", "uleafas", "uleafptr", "uleafval", "uleafnc", "uleaffmtold", "rleaf", "uoptleaf", "unknownnet":
+	case "uleafas":
+		// I[0] = 1: this value's As method declines (it answers by value)
+		s.S = []string{str(t, "msg")}
+		s.I = []int{rapid.SampledFrom([]int{0, 0, 1}).Draw(t, "declines")}
+	case "new", "domnew", "goerr", "pkgnew", "uleafptr", "uleafval", "uleafnc", "uleaffmtold", "rleaf", "uoptleaf", "unknownnet":
 		s.S = []string{str(t, "msg")}
 	case "stleaf":
 		s.S = []string{str(t, "msg")}
@@ -279,7 +283,7 @@ func (g *Cfg) WrapOf(t *rapid.T, k string, c *Spec) *Spec {
 	str := g.Str
 	s := &Spec{K: k, C: c}
 	switch k {
-	case "wrap", "withmsg", "hint", "detail", "handledmsg", "goerrorf", "goerrorfsuffix",
+	case "wrap", "withmsg", "hint", "detail", "handledmsg", "goerrorf", "goerrorfsuffix", "goerrorfecho", "pkgmsgecho", "wrapecho",
 		"pkgmsg", "pkgwrap", "uwrapnofmt", "uwrapcause", "uwrapsuffix", "uwrapoverride", "uopt", "uwrapfmtold", "rwrapfull", "uwrapasself":
 		s.S = []string{str(t, "msg")}
 	case "newfwerr":
@@ -338,7 +342,9 @@ func (g *Cfg) WrapOf(t *rapid.T, k string, c *Spec) *Spec {
 			s.S[0] = ""
 		}
 	case "tags":
-		n := rapid.IntRange(1, 2).Draw(t, "ntags")
+		// (no tag at all: a context whose only tag was removed again - the
+		// layer exists, its tag buffer is empty)
+		n := rapid.SampledFrom([]int{1, 1, 1, 2, 2, 2, 0}).Draw(t, "ntags")
 		for i := 0; i < n; i++ {
 			key := str(t, "key")
 			if rapid.IntRange(0, 3).Draw(t, "shortkey") == 0 {
